@@ -266,7 +266,7 @@ func TestC09(t *testing.T) {
 	emit("corpus", []map[string]ndc{{"n0": {Capacity: 0, Usage: 0.5, Rate: 0.5, Weight: 1}, "n1": {Capacity: 2, Usage: 0.5, Rate: 0.5, Weight: 1}}}, false)
 
 	// ---- structured random cases ----
-	n := r.N(240, 6000)
+	n := r.N(240, 3000)
 	for i := 0; i < n; i++ {
 		var np int
 		switch x := r.Rng.Intn(100); {
